@@ -271,3 +271,13 @@ class Reconstruction(_M):
 
 CONTRACTS = [MetaCall(), Bool(), Eq(), GetAttr(), SetAttr(), DelAttr(), IsMissing(), NotMissing(), WhenMissing(),
              Validator(), Reconstruction()]
+
+
+def extra_contracts():
+    """"... nested inside containers and state instances - yields the one MISSING object": a copy / deep copy of a state instance is
+    rebuilt from exactly its current attribute values (a held MISSING stays a held MISSING): the C04 contracts of State.__copy__
+    / __deepcopy__ and the C05 contract of StateAttribute.validated, borrowed."""
+    from .C02 import variant
+    from .C04 import Copy, DeepCopy
+    from .C05 import Validated
+    return [variant(Copy, "C20", ("P5:a-copy",)), variant(DeepCopy, "C20", ("P5:a-deep-copy", "P5:each-attribute", "P5:the-original")), variant(Validated, "C20", ("",))]
